@@ -31,6 +31,8 @@ type node struct {
 	inj   *sidecar.Injector
 	head  int64
 	rt    http.RoundTripper
+	// failUpdate: the last update callback (in production the Prometheus reload) fails
+	failUpdate bool
 }
 
 type rtFunc func(*http.Request) (*http.Response, error)
@@ -46,7 +48,12 @@ func newNode(dir, raw string, rt http.RoundTripper) (*node, error) {
 	n.inj = sidecar.NewInjector(filepath.Join(dir, "prometheus-out.yml"),
 		sidecar.InjectConfigOptions{ProxyURL: "http://127.0.0.1:8008", PrometheusURL: "http://127.0.0.1:9090"}, prometheus.NewRegistry(), quiet)
 	n.cfg.AddReloadCallbacks(n.sm.ApplyConfig, n.inj.ApplyConfig)
-	n.tm.AddUpdateCallbacks(n.inj.UpdateTargets)
+	n.tm.AddUpdateCallbacks(n.inj.UpdateTargets, func(map[string][]*target.Target) error {
+		if n.failUpdate {
+			return fmt.Errorf("prometheus reload failed (scripted): connection refused")
+		}
+		return nil
+	})
 	getJob := func(job string) *kscrape.JobInfo {
 		ji := n.sm.GetJob(job)
 		if ji != nil {
